@@ -470,6 +470,9 @@ class Builtins:
                 except Exception as e:
                     yield ("raise", Exc(type(e)), st)
                 return
+        if isinstance(recv, SList) and name == "copy" and not pos:
+            yield ("val", SList(recv.n, recv.el, recv.mk), st)        # a new list with the same elements (symbolic lists are values: no aliasing to model)
+            return
         if isinstance(recv, (list, tuple)) and name in ("index", "count", "copy"):
             cs = [conc(p) for p in pos]
             if all(c is not NotConcrete for c in cs) and all(conc(v) is not NotConcrete for v in recv):
